@@ -952,6 +952,7 @@ Not applicable (run-time values): resolution of references, nested CHOICE/SEQUEN
     nesting(m, ctx, "C07.nest");
     nested_struct_like(m, ctx, "C07.list");
     oid(m, ctx, &ev);
+    oid_whole(m, ctx);
     strings(m, ctx, &ev);
 }
 
@@ -1150,71 +1151,93 @@ fn oid(m: &Model, ctx: &mut Ctx, ev: &Evaluator) {
                 }
             }
         }
-        // name(number) form: the explicit number is the arc; a well-known name is only consulted for a bare name
-        struct C {
-            out: Vec<syn::ExprClosure>,
+    }
+}
+
+/// format_oid evaluated whole on OBJECT IDENTIFIER values written with the names X.660 Annex A assigns *positionally*:
+/// the series letters a(1)..z(26) exist only as the third arc below {itu-t(0) recommendation(0)}. What the function
+/// makes of each arc (a number, or a reference to a value of that name) is read off the produced tokens.
+fn oid_whole(m: &Model, ctx: &mut Ctx) {
+    let Some(g) = anchor_fn(m, ctx, "C07.oid", Some("Rasn"), "format_oid", None) else { return };
+    let consts = const_resolver(m);
+    let hook = |_: &Evaluator, name: &str, a: &[Val]| -> Option<Result<Val, String>> {
+        match (name, a.first(), a.get(1)) {
+            (".to_rust_const_case", _, Some(Val::Str(n))) => Some(Ok(Val::Sym(format!("<ref:{}>", n)))),
+            ("u32::try_from", Some(Val::Int { v, .. }), _) => Some(Ok(if *v >= 0 && *v <= u32::MAX as i128 { Val::Ctor("Ok".into(), vec![Val::int(*v)], BTreeMap::new()) } else { Val::Ctor("Err".into(), vec![Val::Unit], BTreeMap::new()) })),
+            (".to_token_stream", Some(Val::Int { v, .. }), _) => Some(Ok(Val::Sym(format!("{}u32", v)))),
+            _ => None,
         }
-        impl model::DeepCb for C {
-            fn expr(&mut self, e: &syn::Expr) {
-                if let syn::Expr::Closure(c) = e {
-                    if tok(&c.body).contains("well_known(") {
-                        self.out.push(c.clone());
-                    }
-                }
-            }
-        }
-        let mut c = C { out: vec![] };
-        model::deep_walk_block(&g.block, &mut c);
-        if c.out.len() != 1 {
-            ctx.fail_closed("C07.oid", "format_oid: the closure resolving well-known arc names was not found");
-        } else {
-            let consts = const_resolver(m);
-            let hook = |_: &Evaluator, name: &str, args: &[Val]| -> Option<Result<Val, String>> {
-                if name.ends_with("well_known") {
-                    // a bare name known to X.660 resolves to the sentinel 777, an unknown one to None
-                    return Some(Ok(match args.first() {
-                        Some(Val::Ctor(s, p, _)) if s == "Some" && matches!(p.first(), Some(Val::Str(n)) if n == "standard") => Val::some(Val::int(777)),
-                        _ => Val::none(),
-                    }));
-                }
-                None
-            };
-            let ev2 = Evaluator { consts: &consts, call_hook: &hook, inline: None };
-            let clo = syn::Expr::Closure(c.out[0].clone());
-            let arc = |name: Option<&str>, number: Option<i128>| {
-                let mut f = BTreeMap::new();
-                f.insert("name".to_string(), name.map(|n| Val::some(Val::Str(n.into()))).unwrap_or(Val::none()));
-                f.insert("number".to_string(), number.map(|n| Val::some(Val::int(n))).unwrap_or(Val::none()));
-                Val::Ctor("ObjectIdentifierArc".into(), vec![], f)
-            };
-            let mut env = Env::new();
-            env.insert("root".into(), Val::some(Val::int(1)));
-            for (name, number, want, what) in [
-                (Some("standard"), Some(7i128), Some(7i128), "name(number) with a well-known name keeps the written number"),
-                (Some("standard"), Some(0), Some(0), "name(number) with a well-known name keeps the written number"),
-                (Some("standard"), None, Some(777), "a bare well-known name is resolved"),
-                (Some("acme"), Some(99999), Some(99999), "name(number) with an unknown name keeps the number"),
-                (Some("acme"), None, None, "a bare unknown name stays a reference"),
-                (None, Some(5), Some(5), "number form"),
-            ] {
-                let key = format!("arc-form:{:?}/{:?}", name, number);
-                ctx.oblige("C07.oid", &key, true);
-                match ev2.apply_closure(&clo, &[arc(name, number)], &env) {
-                    Ok(Val::Ctor(_, _, f)) => {
-                        let got = match f.get("number") {
-                            Some(Val::Ctor(s, p, _)) if s == "Some" => match p.first() { Some(Val::Int { v, .. }) => Some(*v), _ => Some(-1) },
-                            Some(Val::Ctor(s, _, _)) if s == "None" => None,
-                            _ => Some(-1),
-                        };
-                        if got != want {
-                            ctx.violate("C07.oid", &format!("arc-form:{}", if number.is_some() { "name-and-number" } else { "bare-name" }), &g.file, span_line(&c.out[0]),
-                                &format!("{}: arc {:?}({:?}) becomes {:?}, expected {:?} (X.680 §32: in NameAndNumberForm the number is the arc value)", what, name, number, got, want));
+    };
+    let mut inl = inline_all(m, &["ObjectIdentifierArc"]);
+    inl.retain(|k, _| !k.contains("to_rust_const_case"));
+    let ev = Evaluator { consts: &consts, call_hook: &hook, inline: Some(&inl) };
+    let param = g.sig.inputs.iter().filter_map(|a| match a { syn::FnArg::Typed(t) => Some(tok(&t.pat)), _ => None }).next().unwrap_or("oid".into());
+    let arc = |a: &(Option<&str>, Option<i128>)| {
+        let mut f = BTreeMap::new();
+        f.insert("name".to_string(), a.0.map(|n| Val::some(Val::Str(n.into()))).unwrap_or(Val::none()));
+        f.insert("number".to_string(), a.1.map(|n| Val::some(Val::int(n))).unwrap_or(Val::none()));
+        Val::Ctor("ObjectIdentifierArc".into(), vec![], f)
+    };
+    // (label, arcs, expected: number or the name left as a value reference)
+    #[derive(Debug, PartialEq, Clone)]
+    enum A { N(i128), R(&'static str) }
+    let n = |s: &'static str| (Some(s), None);
+    let num = |v: i128| (None, Some(v));
+    let scenarios: Vec<(&str, Vec<(Option<&'static str>, Option<i128>)>, Vec<A>)> = vec![
+        ("series-letter:names", vec![n("itu-t"), n("recommendation"), n("q"), num(755)], vec![A::N(0), A::N(0), A::N(17), A::N(755)]),
+        ("series-letter:name-and-number", vec![(Some("itu-t"), Some(0)), (Some("recommendation"), Some(0)), n("h"), num(245)], vec![A::N(0), A::N(0), A::N(8), A::N(245)]),
+        ("series-letter:numbers", vec![num(0), num(0), n("z"), num(1)], vec![A::N(0), A::N(0), A::N(26), A::N(1)]),
+        ("series-letter:first", vec![n("ccitt"), n("recommendation"), n("a")], vec![A::N(0), A::N(0), A::N(1)]),
+        ("letter-elsewhere:question", vec![n("itu-t"), n("question"), n("q"), num(1)], vec![A::N(0), A::N(1), A::R("q"), A::N(1)]),
+        ("letter-elsewhere:iso", vec![n("iso"), n("standard"), n("q"), num(1)], vec![A::N(1), A::N(0), A::R("q"), A::N(1)]),
+        ("letter-elsewhere:fourth-arc", vec![n("itu-t"), n("recommendation"), num(17), n("q")], vec![A::N(0), A::N(0), A::N(17), A::R("q")]),
+        ("letter-elsewhere:long-name", vec![n("itu-t"), n("recommendation"), n("qq")], vec![A::N(0), A::N(0), A::R("qq")]),
+        ("reference-first", vec![n("ds"), num(9)], vec![A::R("ds"), A::N(9)]),
+        // name(number) form: the written number is the arc; a well-known name is only consulted for a bare name
+        ("arc-form:name-and-number:well-known", vec![n("iso"), (Some("standard"), Some(7)), num(1)], vec![A::N(1), A::N(7), A::N(1)]),
+        ("arc-form:name-and-number:zero", vec![(Some("iso"), Some(1)), (Some("member-body"), Some(0))], vec![A::N(1), A::N(0)]),
+        ("arc-form:name-and-number:unknown", vec![n("iso"), (Some("acme"), Some(99999))], vec![A::N(1), A::N(99999)]),
+        ("arc-form:bare-name:well-known", vec![n("iso"), n("member-body"), num(840)], vec![A::N(1), A::N(2), A::N(840)]),
+        ("arc-form:bare-name:unknown", vec![n("iso"), n("acme"), num(5)], vec![A::N(1), A::R("acme"), A::N(5)]),
+        ("arc-form:bare-name:joint", vec![n("joint-iso-itu-t"), (Some("ds"), Some(5)), n("module")], vec![A::N(2), A::N(5), A::R("module")]),
+    ];
+    for (label, arcs, want) in scenarios {
+        let key = format!("whole:{}", label);
+        ctx.oblige("C07.oid", &key, true);
+        let mut env = Env::new();
+        env.insert("self".into(), Val::ctor("Rasn"));
+        env.insert(param.clone(), Val::Ctor("ObjectIdentifierValue".into(), vec![Val::List(arcs.iter().map(arc).collect())], BTreeMap::new()));
+        match ev.eval_fn_body(&g.block, &mut env) {
+            Ok(Val::Ctor(ok, p, _)) if ok == "Ok" => {
+                let text = match p.first() { Some(Val::Sym(s)) => s.clone(), Some(o) => o.show(), None => String::new() };
+                // the arcs in output order: `<n>u32` literals and `<ref:name>` references
+                let mut got: Vec<String> = vec![];
+                let b = text.as_bytes();
+                let mut i = 0;
+                while i < b.len() {
+                    if text[i..].starts_with("<ref:") {
+                        let e = text[i..].find('>').map(|e| i + e).unwrap_or(b.len());
+                        got.push(format!("R({})", &text[i + 5..e]));
+                        i = e;
+                    } else if b[i].is_ascii_digit() && (i == 0 || !(b[i - 1].is_ascii_alphanumeric() || b[i - 1] == b'_')) {
+                        let mut j = i;
+                        while j < b.len() && b[j].is_ascii_digit() { j += 1; }
+                        if text[j..].starts_with("u32") {
+                            got.push(format!("N({})", &text[i..j]));
                         }
+                        i = j;
                     }
-                    Ok(o) => ctx.fail_closed("C07.oid", &format!("[{}]: {}", key, o.show())),
-                    Err(e) => ctx.fail_closed("C07.oid", &format!("[{}]: {}", key, e)),
+                    i += 1;
+                }
+                let want_s: Vec<String> = want.iter().map(|a| match a { A::N(v) => format!("N({})", v), A::R(r) => format!("R({})", r) }).collect();
+                if got != want_s {
+                    ctx.violate("C07.oid", &if label.starts_with("arc-form:") { label.rsplitn(2, ':').last().unwrap_or(label).to_string() } else { format!("whole:{}", label.split(':').next().unwrap_or(label)) }, &g.file, g.line,
+                        &format!("OBJECT IDENTIFIER value {{{}}}: format_oid emits the arcs {:?}, X.660 Annex A / X.680 §32: {:?} (N = arc number, R = reference to a value of that name)",
+                            arcs.iter().map(|(n, v)| match (n, v) { (Some(n), Some(v)) => format!("{}({})", n, v), (Some(n), None) => n.to_string(), (None, Some(v)) => v.to_string(), _ => "?".into() }).collect::<Vec<_>>().join(" "), got, want_s));
                 }
             }
+            Ok(o) => ctx.fail_closed("C07.oid", &format!("[{}]: result {}", key, o.show().chars().take(120).collect::<String>())),
+            Err(e) => ctx.fail_closed("C07.oid", &format!("[{}]: {}", key, e)),
         }
     }
 }
